@@ -49,7 +49,7 @@ Proof.
   pose proof (OrdH_poll_next FUEL cid (WExec q) (k_H k) r H1 I EP O) as O1.
   destruct r; first
     [ apply IH in E; [exact E|]; cbn [k_H]; first [exact O1 | eapply OrdH_same; [|exact O1]; reflexivity]
-    | inversion E; subst; first [exact O1 | cbn [k_H]; apply (St_ord 0 (WExec 0) _ _ (St_drop_cmd 0 (WExec 0) DF _ H1) O1)] ].
+    | inversion E; subst; first [exact O1 | cbn [k_H]; apply (St_ord 0 (WExec 0) _ _ (St_drop_cmd 0 (WExec 0) (dfuel H1) _ H1) O1)] ].
 Qed.
 
 Lemma xspawn_all_OrdH : forall fuel k k', xspawn_all FUEL fuel k = Some k' -> OrdH (k_H k) -> OrdH (k_H k').
